@@ -32,7 +32,7 @@ func verifPerms(in []string) [][]string {
 func TestVerifC20Chain(t *testing.T) {
 	r := ev.New("C20", "cni-chain")
 	defer r.Flush()
-	r.Rule("real mergeConfigList over every ordering of every non-empty subset of {terway, cilium-cni, portmap} x eBPF kernel {y,n} x EDT {y,n} x policy provider {absent, iptables, ebpf, wrong type} x virtual type {absent, veth, ipvlan, datapathv2, IPVlan, Veth, junk, wrong type} x input bandwidth_mode {absent, tc, edt} x network-policy switch x recorded node capabilities {none, chainer true, chainer false} x auto-datapath-v2 seam {y,n} x a cilium_net link {present, absent} (inside a private network namespace; capability file in a temp dir); oracle: valid JSON, plugin order = input order (minus cilium on non-eBPF kernels, plus at most one appended chainer), eniip_virtual_type in {veth, ipvlan, datapathv2} and bandwidth_mode in {edt, tc} whenever present, chainer present whenever eBPF and datapath in {ipvlan, datapathv2}, never present without eBPF")
+	r.Rule("real mergeConfigList over every ordering of every non-empty subset of {terway, cilium-cni, portmap} x eBPF kernel {y,n} x EDT {y,n} x policy provider {absent, iptables, ebpf, wrong type} x virtual type {absent, veth, ipvlan, datapathv2, every one of them also in mixed and upper case, junk, wrong type} x input bandwidth_mode {absent, tc, edt} x network-policy switch x recorded node capabilities {none, chainer true, chainer false} x auto-datapath-v2 seam {y,n} x a cilium_net link {present, absent} (inside a private network namespace; capability file in a temp dir); oracle: valid JSON, plugin order = input order (minus cilium on non-eBPF kernels, plus at most one appended chainer), eniip_virtual_type in {veth, ipvlan, datapathv2} and bandwidth_mode in {edt, tc} whenever present, chainer present whenever eBPF and datapath in {ipvlan, datapathv2}, never present without eBPF")
 	dir := t.TempDir()
 	nodeCapabilitiesFile = filepath.Join(dir, "node_capabilities")
 	names := []string{"terway", "cilium-cni", "portmap"}
@@ -46,7 +46,7 @@ func TestVerifC20Chain(t *testing.T) {
 		}
 		lists = append(lists, verifPerms(sub)...)
 	}
-	vtypes := []string{"", `"veth"`, `"ipvlan"`, `"datapathv2"`, `"IPVlan"`, `"Veth"`, `"junk"`, `7`}
+	vtypes := []string{"", `"veth"`, `"ipvlan"`, `"datapathv2"`, `"IPVlan"`, `"Veth"`, `"DataPathV2"`, `"DATAPATHV2"`, `"IPVLAN"`, `"junk"`, `7`}
 	providers := []string{"", `"iptables"`, `"ebpf"`, `7`}
 	bws := []string{"", `"tc"`, `"edt"`}
 	caps := []string{"", "has_cilium_chainer = true\n", "has_cilium_chainer = false\n"}
